@@ -151,6 +151,11 @@ func init() {
 					// synctest -- the bubble would never become idle
 					for sid := 1; sid <= 6; sid++ {
 						w.open(0, sid, 51)
+						if sid%2 == 0 {
+							// unordered streams take no SSN (but a MID with interleaving): the roll-back of a failed
+							// write differs per kind, the buffered amount must be given back in every one
+							w.setRel(0, sid, true, ReliabilityTypeReliable, 0)
+						}
 						w.installCallback(0, sid, 0)
 						if dl > 0 {
 							// the first write of each stream takes the LAST sequence number before the wrap:
@@ -395,6 +400,44 @@ func init() {
 					w.snapAll = true
 					w.quiesce()
 					w.tr.emit(map[string]any{"ev": "expect", "drained": true, "t": w.now()})
+					w.finish(true)
+				})
+			}
+			// 4f. a long outage while shutting down: SHUTDOWN (from the caller) and SHUTDOWN-ACK (from the peer, second
+			//     variant) are retransmitted with back-off up to RTO.max for as long as it lasts -- T2-shutdown has no
+			//     retry limit -- and the shutdown completes when the path heals
+			for _, lose := range []string{"shutdown", "shutdownack"} {
+				if !next() {
+					continue
+				}
+				label := fmt.Sprintf("api-shutdown-outage-%s-il%v#%d", lose, il, k)
+				run(label, func() {
+					w := vfNewWorld(vfWorldOpt{Label: label, Trace: tr, A: vfEpCfg{InitTSN: 18, Tag: 0xA6, IL: il, RTOMax: 3000}, B: vfEpCfg{InitTSN: 46, Tag: 0xB6, IL: il, Server: true, RTOMax: 3000}})
+					if !w.vfConnect() {
+						w.finish(true)
+						return
+					}
+					w.open(0, 1, 51)
+					w.write(0, 1, 300, 51)
+					w.heal(5 * time.Second)
+					a := w.ep[0].a
+					w.apiAsync(0, "shutdown", func() error { return a.Shutdown(context.Background()) })
+					// 60 s of outage: about twenty expiries of T2-shutdown at RTO.max 3 s
+					for t0 := time.Now(); time.Since(t0) < 60*time.Second; {
+						for _, p := range w.pending(-1) {
+							switch kd := vfFirstKind(p.raw); {
+							case lose == "shutdown" || kd == "shutdownack" || kd == "shutdowncomplete":
+								w.drop(p.id)
+							default: // the SHUTDOWN gets through, the answers are lost
+								w.deliver(p.id)
+							}
+						}
+						w.tick(4 * time.Second)
+					}
+					w.heal(30 * time.Second)
+					w.snapAll = true
+					w.quiesce()
+					w.tr.emit(map[string]any{"ev": "shutend", "who": 0, "t": w.now()})
 					w.finish(true)
 				})
 			}
